@@ -352,13 +352,34 @@ def check_kernel(ctx, o, env, e, v, axis, ext, kexpr, key, bounds=None):
                 pt = {LOGI[axis]: S(b[0] if ext == -1 else b[1])}
                 truth, got = truth.subs(pt), sympy.sympify(got).subs(pt)
             coords = [x for k, x in enumerate(LOGI[:ldim]) if k != axis]
-            floats = bool(sympy.sympify(kexpr).atoms(sympy.Float))
+            floats = bool(sympy.sympify(kexpr).atoms(sympy.Float)) or env.mtype == 'czarnyf'
             ok = same_value(truth, got, coords or [LOGI[0]], rng, numeric=True, tol=1e-9 if floats else 1e-35)
     except (Timeout, NotImplementedError) as ex:
         o.count('skipped:' + type(ex).__name__)
         return
     o.count('%s:%s' % (env.mtype, 'interior' if axis is None else 'face'))
     if ok is None:
+        # undecided: is it the kernel that cannot be evaluated (complex / not finite) where the truth can?
+        from harness.inst import numeval
+        bad = 0
+        for _ in range(4):
+            pt2 = {x: Rational(rng.randint(2, 30), rng.randint(31, 37)) for x in (coords or [LOGI[0]])}
+            try:
+                numeval(truth, pt2)
+            except Exception:
+                continue
+            try:
+                numeval(got, pt2)
+            except (TypeError, ZeroDivisionError) as ex:
+                bad += 1
+                why = str(ex)
+            except Exception:
+                pass
+        if bad >= 2:
+            o.fail(key or ('kernel-not-real:' + label[:200]),
+                   'the kernel of the %s has no finite real value (%s) at points where (integrand at F)·element is finite: %s'
+                   % (label, why, str(kexpr)[:300]))
+            return
         o.count('undecided')
     elif ok is False:
         o.fail(key or ('kernel:' + label[:200]),
@@ -375,7 +396,7 @@ def oracle(ctx, factor, seeds):
     n = (300 if ctx.thorough else 45) * factor
     # every face of fixed patches (corpus): polar 2-D, polynomial 3-D, a surface, a 1-D patch
     corpus = []
-    for dim, mt in ((2, 'polar'), (3, 'poly'), (1, 'polyneg'), (2, 'polyneg')):
+    for dim, mt in ((2, 'polar'), (3, 'poly'), (1, 'polyneg'), (2, 'polyneg'), (2, 'czarnyf')):
         env = MEnv(ctx.rng, dim, mt, tag='c4k', kinds=('h1',))
         for reg, axis, ext in regions_of(env.domain):
             corpus.append((env, reg, axis, ext, env.sf['h1'][1] * (env.coords[0] + 2), env.sf['h1'][1],
@@ -389,7 +410,7 @@ def oracle(ctx, factor, seeds):
     for env, reg, axis, ext, e, v, key in stream:
         o.evaluations += 1
         try:
-            with time_limit(60):
+            with time_limit(900 if key else 60):
                 ks = kernels(LinearForm(v, integral(reg, e)), env.domain, env.logical_domain)
         except Timeout:
             o.count('impl-timeout')
